@@ -61,10 +61,53 @@ class Sym:
         return hash(self.label)
 
 
+class UserFunc:
+    """A function of the analysed repository given as AST; calling it interprets its body with this evaluator."""
+
+    def __init__(self, node: ast.FunctionDef, env: dict[str, Any] | None = None):
+        self.node = node
+        self.env = env or {}
+
+
+class Host:
+    """A callable defined by the checker itself (never by the repository) that templates may call."""
+
+    def __init__(self, fn):
+        self.fn = fn
+
+
 class Evaluator:
     def __init__(self, env: dict[str, Any] | None = None, steps: int = 200000):
         self.env = dict(env or {})
         self.steps = steps
+
+    def call_user(self, f: "UserFunc", args: list, kwargs: dict) -> Any:
+        a = f.node.args
+        params = [x.arg for x in [*a.posonlyargs, *a.args]]
+        env = dict(self.env)
+        env.update(f.env)
+        if len(args) > len(params):
+            raise Refused("too many arguments")
+        bound = dict(zip(params, args))
+        for k, v in kwargs.items():
+            if k not in params and k not in [x.arg for x in a.kwonlyargs]:
+                raise Refused(f"unexpected keyword {k}")
+            bound[k] = v
+        ndef = len(a.defaults)
+        for i, p in enumerate(params):
+            if p not in bound:
+                j = i - (len(params) - ndef)
+                if j < 0:
+                    raise Refused(f"missing argument {p}")
+                bound[p] = self.ev(a.defaults[j], env)
+        for kw, d in zip(a.kwonlyargs, a.kw_defaults):
+            if kw.arg not in bound:
+                if d is None:
+                    raise Refused(f"missing keyword {kw.arg}")
+                bound[kw.arg] = self.ev(d, env)
+        env.update(bound)
+        r = self.run(f.node.body, env)
+        return r[1]
 
     def _tick(self) -> None:
         self.steps -= 1
@@ -161,6 +204,10 @@ class Evaluator:
                 else:
                     args.append(self.ev(a, env))
             kwargs = {k.arg: self.ev(k.value, env) for k in e.keywords if k.arg}
+            if isinstance(f, UserFunc):
+                return self.call_user(f, args, kwargs)
+            if isinstance(f, Host):
+                return f.fn(*args, **kwargs)
             if isinstance(f, tuple) and f and f[0] == "symmethod":
                 m = f[1].methods[f[2]]
                 return m(*args, **kwargs) if callable(m) else m
